@@ -478,6 +478,67 @@ func aliasOps(r *rng, totp bool) []string {
 	return out
 }
 
+// degenerateOps: the corners where "nothing" could be mistaken for "equal": the empty code (and "0") against a declared
+// length of 0, derivations that fail (unusable suite, unsupported hash, undecodable secret) with every code a failed
+// derivation might be compared with ("", "0", zeros of the declared length) — for every validator and every way of
+// building a suite value.  Systematic, not drawn: which of these a change breaks must not depend on the random stream.
+func degenerateOps(r *rng, which string) []string {
+	var out []string
+	key := genKey(r)
+	ks := hxs(spell(r, key))
+	codes := func(d int) []string {
+		cs := []string{"", "0", "00", " "}
+		if d > 0 && d < 16 {
+			cs = append(cs, strings.Repeat("0", d))
+		}
+		return cs
+	}
+	switch which {
+	case "hotp", "totp":
+		for _, d := range []int{0, 1, 6, 11, 255} {
+			for _, a := range []int{0, 2, 3, 255} {
+				for _, s := range []uint64{0, 1, 11} {
+					for _, k := range []string{ks, hxs("!not base32!"), "-"} {
+						for _, c := range codes(d) {
+							if which == "hotp" {
+								out = append(out, fmt.Sprintf("vhotp %s %s %d %s", k, hxs(c), uint64(r.intn(5)), paramStr(d, 0, s, a)))
+							} else {
+								out = append(out, fmt.Sprintf("vtotp %s %s %s %s", k, hxs(c), timeFields(r, int64(r.intn(100))), paramStr(d, pick(r, []uint64{0, 30}), s, a)))
+							}
+						}
+					}
+				}
+			}
+		}
+	case "ocra":
+		in := "I:nil:3132333435363738:nil:nil:nil"
+		for _, kind := range []string{"C", "M", "X", "S"} {
+			for _, d := range []int64{0, 1, 3, 6, 11} {
+				for _, h := range []int{0, 3} {
+					for _, q := range []bool{true, false} {
+						c := cfgT{kind: kind, raw: "OCRA-1:HOTP-SHA1-6:QN08", hash: h, digits: d, challenge: 1, q: q}
+						if !q {
+							c.challenge = 0
+						}
+						for _, k := range []string{ks, hxs("!not base32!")} {
+							for _, code := range codes(int(d)) {
+								out = append(out, fmt.Sprintf("vocra %s %s %s %s", k, hxs(code), c.str(), in))
+							}
+						}
+					}
+				}
+			}
+		}
+		// the zero RawSuite that NewRawSuite returns beside its error, and unparsable raw strings
+		for _, code := range codes(0) {
+			out = append(out, fmt.Sprintf("vocra %s %s M:-:0:0:0:00000:0:0 %s", ks, hxs(code), in))
+			out = append(out, fmt.Sprintf("vocra %s %s C:-:0:0:0:00000:0:0 %s", ks, hxs(code), in))
+			out = append(out, fmt.Sprintf("vocra %s %s R:%s %s", ks, hxs(code), hxs("OCRA-1:HOTP-SHA1-0:QN08"), in))
+		}
+	}
+	return out
+}
+
 var skews = []uint64{0, 0, 1, 1, 2, 2, 3, 5, 9, 10, 10}
 var refusedSkews = []uint64{11, 12, 1000, 1 << 32, 1<<63 - 1, 1 << 63, 1<<63 + 1, 1<<64 - 2, 1<<64 - 1}
 
@@ -523,6 +584,7 @@ func genC03(r *rng, n int, hostile bool) []string {
 	out = append(out, rareOps(r)...)
 	out = append(out, windowGrid(r, false)...)
 	out = append(out, aliasOps(r, false)...)
+	out = append(out, degenerateOps(r, "hotp")...)
 	for i := 0; i < n; i++ {
 		key := genKey(r)
 		d, a := genDigits(r, hostile), genAlgo(r, hostile)
@@ -599,6 +661,7 @@ func genC04(r *rng, n int, hostile bool) []string {
 	out = append(out, windowGrid(r, true)...)
 	out = append(out, steppedClock(r, true)...)
 	out = append(out, aliasOps(r, true)...)
+	out = append(out, degenerateOps(r, "totp")...)
 	for i := 0; i < n; i++ {
 		key := genKey(r)
 		d, a := genDigits(r, hostile), genAlgo(r, hostile)
@@ -1066,6 +1129,7 @@ func genC14(r *rng, n int, hostile bool) []string {
 
 func genC06(r *rng, n int, hostile bool) []string {
 	var out []string
+	out = append(out, degenerateOps(r, "ocra")...)
 	for i := 0; i < n; i++ {
 		su, in, c := genSuiteAndInput(r, hostile || r.intn(4) == 0)
 		key := genKey(r)
